@@ -283,8 +283,10 @@ void TraceRecorder::saveLog(const char *logFile, const char *processName)
     ++nextTid;
   }
   // We need to remove the last , we output to ensure the JSON array is correct
-  // Overwrite it with the ] character.
-  fout.seekp(-1, std::ios::cur);
+  // Overwrite it with the ] character. If nothing followed the opening [
+  // (no process name and no threads) there is no , to overwrite.
+  if (fout.tellp() > 1)
+    fout.seekp(-1, std::ios::cur);
   fout << "]";
 }
 
